@@ -146,6 +146,28 @@ fn main() {
         fjall::verif::pause::set(None);
         if ok { drop(ks); drop(db); let _ = std::fs::remove_dir_all(dir); } else { std::mem::forget(ks); std::mem::forget(db); }
     }
+    // F25: a key lsm-tree refuses (empty) was journaled before it was refused: session poisoned, and the record
+    // left in the journal made every later recovery panic
+    {
+        let dir = std::path::PathBuf::from("/dev/shm/verif-scratch-f25");
+        let _ = std::fs::remove_dir_all(&dir);
+        let prev = std::panic::take_hook();
+        std::panic::set_hook(Box::new(|_| {}));
+        let (rejected, next_ok);
+        {
+            let db = fjall::Database::builder(&dir).worker_threads_unchecked(0).open().unwrap();
+            let a = db.keyspace("a", KeyspaceCreateOptions::default).unwrap();
+            a.insert("k", "v").unwrap();
+            let a2 = a.clone();
+            rejected = !matches!(std::panic::catch_unwind(std::panic::AssertUnwindSafe(move || a2.insert("", "v"))), Ok(Ok(())));
+            next_ok = a.insert("k2", "v2").is_ok();
+        }
+        let d2 = dir.clone();
+        let reopen_ok = matches!(std::panic::catch_unwind(move || fjall::Database::builder(&d2).worker_threads_unchecked(0).open().is_ok()), Ok(true));
+        std::panic::set_hook(prev);
+        println!("F25: insert with an empty key refused = {rejected}, session still usable = {next_ok}, database opens afterwards = {reopen_ok}");
+        let _ = std::fs::remove_dir_all(dir);
+    }
     // F12: version marker absent on an existing database whose first journal was already reclaimed
     {
         let dir = std::path::PathBuf::from("/dev/shm/verif-scratch-f12");
